@@ -279,8 +279,28 @@ def plan_c14(pid, rng, quick):
                      "mode": 0, "nowire": True, "limits": ladder})
     return plan
 
+def plan_c16(pid, rng, quick):
+    plan = []
+    for i in range(96 if quick else 1600):
+        signal = rng.choice(["traces", "logs", "metrics"])
+        st = otap.rand_stream(rng, "conc/%s/%d" % (signal, i), signal, [], nb=rng.choice([2, 3, 5]),
+                              opts=otap.opts_random(rng) if rng.random() < 0.6 else None,
+                              size=rng.choice(["small", "medium"]))
+        if rng.random() < 0.2:
+            for b in st["batches"]:
+                b["signal"] = rng.choice(["traces", "logs", "metrics"])
+        st["nowire"] = True
+        plan.append(st)
+    for i in range(8 if quick else 64):   # dictionary state machines running side by side
+        signal = rng.choice(["traces", "logs", "metrics"])
+        bs = ramp_history(rng, signal, rng.choice(["overflow", "reset", "cross"]), 255, 4)
+        plan.append({"id": "conc-dict/%s/%d" % (signal, i), "signal": signal, "opts": {"dict": "8"}, "batches": bs,
+                     "props": [], "mode": 0, "nowire": True})
+    rng.shuffle(plan)
+    return plan
+
 PLANS = {"C01": plan_roundtrip, "C02": plan_roundtrip, "C03": plan_roundtrip, "C08": plan_c08, "C15": plan_c15,
-         "C12": plan_wire, "C13": plan_wire, "C04": plan_c04, "C07": plan_c07, "C14": plan_c14}
+         "C12": plan_wire, "C13": plan_wire, "C04": plan_c04, "C07": plan_c07, "C14": plan_c14, "C16": plan_c16}
 
 def fixed_plans(pid):
     out = []
@@ -321,7 +341,11 @@ def run(pid, tier_, replay=None):
         return 1 if mine else 0
 
     plan = fixed_plans(pid) + PLANS[pid](pid, rng, quick)
-    viol, outs, nev, notes = otap.execute(plan, shards=12, timeout=1500 if quick else 7000)
+    if pid == "C16":
+        viol, outs, nev, notes = otap.execute(plan, shards=4, timeout=1500 if quick else 7000, binp=otap.build(race=True),
+                                              test="TestConcurrent", extra_env={"VERIF_GROUP": str(rng.choice([4, 6, 8]))})
+    else:
+        viol, outs, nev, notes = otap.execute(plan, shards=12, timeout=1500 if quick else 7000)
     stats = otap.summarize(outs)
     found = []
     for tr, prop, clause, seq in viol:
@@ -350,7 +374,7 @@ def run(pid, tier_, replay=None):
         if s["items"] == 0:
             continue
         sigs.add((tuple(sorted(s["obs"].items())), tuple(sorted(s["enc"].items())), tuple(sorted(s["dec"].items())),
-                  len(s["sids"]), s["batches"], tuple(sorted(s["ladder"].items())), len(s["fields"])))
+                  len(s["sids"]), s["batches"], tuple(sorted(s["ladder"].items())), len(s["fields"]), tuple(s.get("conc", []))))
         for k, v in s["obs"].items():
             agg[k] = agg.get(k, 0) + v
     fields = set()
